@@ -11,7 +11,7 @@ from vlib.meshreal import Live, apply_op, walk_tree, curve as real_curve, _curve
 
 ID = 'C18'
 LEVEL = 'exploration'
-RULE = ('curve in {5 shipped curves} + generated rectilinear polygons / open polylines with integer or dyadic '
+RULE = ('curve in {5 shipped curves, 3 line/arc curves built as PiecewiseParametrization objects} + generated rectilinear polygons / open polylines with integer or dyadic '
         'vertices at arbitrary offsets (skyline shapes, any start vertex, both orientations; polygons whose corners '
         'fall within 1.2e-5 of one of the constructor\'s 50 derivative sample points are excluded and counted) x '
         'parameters (uniform, break points, +-1 ulp around them, 0, L; scalar and vectorised calls) x initial time '
@@ -67,7 +67,8 @@ def polygons():
 
 
 def curves():
-    return st.one_of(st.sampled_from(['UnitSquare', 'PiSquare', 'LShape', 'Circle', 'UnitInterval']), polygons())
+    return st.one_of(st.sampled_from(['UnitSquare', 'PiSquare', 'LShape', 'Circle', 'UnitInterval', 'Stadium', 'Stadium1', 'Dee']),
+                     polygons())
 
 
 def cases(max_ops):
@@ -258,7 +259,7 @@ def run(ctx):
     explore(ctx, cases(12 if ctx.quick else 40), body, n)
     if ctx.k == 0:
         # deterministic corner cases named in the property text
-        for c in ['Circle', 'UnitSquare', 'PiSquare', 'LShape', 'UnitInterval']:
+        for c in ['Circle', 'UnitSquare', 'PiSquare', 'LShape', 'UnitInterval', 'Stadium', 'Dee']:
             for n_slabs in range(1, 7):
                 ts = [k / n_slabs for k in range(n_slabs + 1)]
                 for custom, en in ((False, []), (True, []), (True, [[0, 6]]), (True, [[0, 4], [0, 8]])):
